@@ -6,6 +6,7 @@ against a ``copy.deepcopy`` of the object (observer rule, DESIGN 3.7).
 from __future__ import annotations
 
 import copy
+import json
 import os
 import signal
 import sys
@@ -175,7 +176,17 @@ def apply_mutator(g, kind, op):
     if k == "del_bstereo":
         return g.delete_bond_stereo((op["a"], op["b"]))
     if k in ("set_achange", "set_bchange"):
-        kw = {r.lower(): mk_desc(op[r.lower()]) for r in ROLES if op.get(r.lower()) is not None}
+        # equal descriptors given for two roles are one and the same object,
+        # as in set_atom_stereo_change(broken=d, formed=d)
+        made = {}
+        kw = {}
+        for r in ROLES:
+            d = op.get(r.lower())
+            if d is not None:
+                key = json.dumps(d)
+                if key not in made:
+                    made[key] = mk_desc(d)
+                kw[r.lower()] = made[key]
         if k == "set_achange":
             return g.set_atom_stereo_change(**kw)
         return g.set_bond_stereo_change(**kw)
